@@ -23,6 +23,30 @@ class WitnessMismatch(Exception):
     """The concrete twin asked for an input the symbolic path never created."""
 
 
+import os
+
+_STUB_NAMES = ("_File", "_Ctx", "FakeAiofiles", "FakeJson", "SyncOs", "_FakeOs", "_FakePath", "FakeWriter", "FakeBrokerClient", "RecTransport",
+               "SuspendingTransport", "LifeTransport", "DuckReader", "FakeClock", "StubAV", "Token", "SymNode", "SymChild", "ShellMutableMap")
+_REPO_SRC = os.path.join(os.environ.get("VERIF_REPO", "/repo"), "src") + os.sep
+
+
+def origin(e):
+    """'escaped' if the exception was raised by the code under test (innermost frame in /repo/src) and
+    is not about one of our stubs lacking something; otherwise 'harness' (reported as inconclusive)."""
+    tb = e.__traceback__
+    last = None
+    while tb is not None:
+        last = tb
+        tb = tb.tb_next
+    if last is None:
+        return "harness"
+    fn = last.tb_frame.f_code.co_filename
+    text = str(e)
+    if fn.startswith(_REPO_SRC) and not any(nm in text for nm in _STUB_NAMES):
+        return "escaped"
+    return "harness"
+
+
 def jsonable(x):
     if isinstance(x, (str, int, float, bool)) or x is None:
         if isinstance(x, bool):
